@@ -22,6 +22,47 @@ WANT_PREDS = {
 MIN_VALID = {"ws2dgu": 1, "ws2dpgu": 1, "ws2doptv": 1, "ws2doptvp": 1, "ws2doptvplc": 1, "ws2dwcv": 4, "ws2dwcvp": 4}
 
 
+def taint_rule(rep: Report, fam, smoothers, helpers):
+    """R-TAINT over the given smoother kernels and helpers (shared with C05: the GCV scores, the robust weights and the selected lambda are
+    functions of the valid cells only). Returns the reporting closure and the helper summaries for further callers."""
+    def report(name, file, t: Taint, sinks: Dict[str, V]):
+        for u in t.unsupported:
+            raise AnalysisError(f"unsupported construct for the taint analysis: {u}")
+        for sink, v in sinks.items():
+            ok = v.level < SP_P
+            trail = ""
+            if not ok:
+                # the flow path: last definitions that raised the level
+                steps = [f"L{f.line} `{f.stmt[:70]}` -> {f.target}: {NAMES[f.value.level]}" for f in t.flows if f.value.level >= AM_P]
+                trail = " | ".join(steps[-8:])
+            rep.ob("R-TAINT", file, name, f"the placeholder at masked cells cannot influence `{sink}`", ok,
+                   f"`{sink}` is {NAMES[v.level]}: {trail}", f"{name}: taint of {sink}", kind=f"final abstract value {NAMES[v.level]}")
+
+    summaries = {}
+    for h in helpers:
+        hs = fam[h]
+        summaries[h] = Summary(hs.k.node, hs.file, hs.k.params[0], "w")
+    for n in smoothers:
+        s = fam[n]
+        if s.mask is None:
+            continue
+        lvl = AM_N if {"nan", "inf"} <= WANT_PREDS[n] else AM_P
+        t = Taint(s.k.node, s.file, s.mask["series"], lvl, s.mask["name"], s.mask["nodata"]).run()
+        sinks = {o: t.state.get(o, V()) for o in s.k.outputs}
+        report(n, s.file, t, sinks)
+        # the pass-through arm may carry the placeholder at its own cell, never more
+    for h in helpers:
+        hs = fam[h]
+        t = Taint(hs.k.node, hs.file, hs.k.params[0], AM_P, None, None, params={"w": V(CLEAN, True)}).run()
+        sinks = {}
+        for st_, vals in t.returns:
+            for i, v in enumerate(vals):
+                key = f"return[{i}]"
+                sinks[key] = V(max(sinks.get(key, V()).level, v.level))
+        report(h, hs.file, t, sinks)
+    return report, summaries
+
+
 def run(repo: Repo, tier: str) -> Report:
     rep = Report("C02")
     rep.decided = [
@@ -121,41 +162,7 @@ def run(repo: Repo, tier: str) -> Report:
             rep.ob("R-GUARD", s.file, n, "... and the reported lambda is 0", len(z) == 1, "", z[0].stmt if z else f"{n}: lopt = 0")
 
     # ---- 3. R-TAINT
-    def report(name, file, t: Taint, sinks: Dict[str, V]):
-        for u in t.unsupported:
-            raise AnalysisError(f"unsupported construct for the taint analysis: {u}")
-        for sink, v in sinks.items():
-            ok = v.level < SP_P
-            trail = ""
-            if not ok:
-                # the flow path: last definitions that raised the level
-                steps = [f"L{f.line} `{f.stmt[:70]}` -> {f.target}: {NAMES[f.value.level]}" for f in t.flows if f.value.level >= AM_P]
-                trail = " | ".join(steps[-8:])
-            rep.ob("R-TAINT", file, name, f"the placeholder at masked cells cannot influence `{sink}`", ok,
-                   f"`{sink}` is {NAMES[v.level]}: {trail}", f"{name}: taint of {sink}", kind=f"final abstract value {NAMES[v.level]}")
-
-    summaries = {}
-    for h in HELPERS:
-        hs = fam[h]
-        summaries[h] = Summary(hs.k.node, hs.file, hs.k.params[0], "w")
-    for n in SMOOTHERS:
-        s = fam[n]
-        if s.mask is None:
-            continue
-        lvl = AM_N if {"nan", "inf"} <= WANT_PREDS[n] else AM_P
-        t = Taint(s.k.node, s.file, s.mask["series"], lvl, s.mask["name"], s.mask["nodata"]).run()
-        sinks = {o: t.state.get(o, V()) for o in s.k.outputs}
-        report(n, s.file, t, sinks)
-        # the pass-through arm may carry the placeholder at its own cell, never more
-    for h in HELPERS:
-        hs = fam[h]
-        t = Taint(hs.k.node, hs.file, hs.k.params[0], AM_P, None, None, params={"w": V(CLEAN, True)}).run()
-        sinks = {}
-        for st_, vals in t.returns:
-            for i, v in enumerate(vals):
-                key = f"return[{i}]"
-                sinks[key] = V(max(sinks.get(key, V()).level, v.level))
-        report(h, hs.file, t, sinks)
+    report, summaries = taint_rule(rep, fam, SMOOTHERS, HELPERS)
     # driver
     t = Taint(d.node, d.file, "tyx", AM_P, "ww", "nodata", summaries=summaries).run()
     report(DRIVER, d.file, t, {"zz": t.state.get("zz", V()), "lopts": t.state.get("lopts", V())})
